@@ -39,6 +39,19 @@ def add_cases(run, sec, count, gen=None, skip_errors=True):
         sec.add(pm.doc_line(doc), out, meta={'doc': doc_json(doc)}, nontrivial=pages >= 2, tags=tags)
 
 
+def add_docs(run, sec, named_docs, skip_errors=True):
+    """The same comparison for given documents: `named_docs` yields (id, document)."""
+    docs.quiet()
+    for doc_id, doc in named_docs:
+        out = real_line(doc)
+        if skip_errors and out.startswith('err:') and out != 'err:pagination':
+            sec.tags['implementation raised (left to C02)'] += 1
+            continue
+        pages = out.count('(page ')
+        sec.add(pm.doc_line(doc), out, meta={'doc': doc_json(doc), 'doc_id': doc_id}, nontrivial=pages >= 2,
+                tags=[doc_id.split('-')[0], f'pages{min(pages, 10)}'])
+
+
 def doc_json(doc):
     """JSON-able copy (Fractions -> strings)."""
     def conv(x):
